@@ -316,6 +316,25 @@ def check_invs(eng, spec, fr, old_vars, entry_vars, label_prefix, phase, assume_
             eng.prove(f"{label_prefix}/{phase}/{lab}", v, "invariant")
 
 
+def at_exit(eng, spec, fr, old_vars, entry_vars, label_prefix):
+    """loop contract key `at_exit=[("label", clause)]`: proof annotations proved (then available as hypotheses) on the path that LEAVES
+    the loop normally, from the invariants and the negated condition.  Same clause forms as `asserts_after`, but tied to the loop and not
+    to the name of whatever local the carrier happens to assign next (a renamed local / reordered statement keeps the proof)."""
+    for j, cl in enumerate(spec.get("at_exit", [])):
+        lab, text = split_label(cl, f"x{j}")
+        if callable(text):
+            eng.cur_frame = fr
+            eng.spec_mode += 1
+            try:
+                v = text(eng, dict(_visible(fr)), old_vars)
+            finally:
+                eng.spec_mode -= 1
+            v = eng.truth(v)
+        else:
+            v = eval_clause(eng, text, _visible(fr), fr.globs, old_vars, entry_vars, extra=eng.spec_extra)
+        eng.prove(f"{label_prefix}/exit/{lab}", v, "annotation")
+
+
 def _visible(fr):
     d = {}
     chain = []
@@ -375,6 +394,7 @@ def exec_while(eng, s, fr):
             d1 = _eval_term(eng, spec["decreases"], fr, old_vars, entry_vars)
             eng.prove(f"{pre}/variant/decreases", to_z3(d1, "int") < to_z3(d0, "int"), "termination")
         raise PathEnd()
+    at_exit(eng, spec, fr, old_vars, entry_vars, pre)
     eng.exec_block(s.orelse, fr)
 
 
@@ -546,4 +566,5 @@ def exec_for(eng, s, fr):
         sink.items.append(LoopYields(o, n, [lab for lab, _ in spec["yields"]]))
     if isinstance(seqv, Iter):
         seqv.consumed = True
+    at_exit(eng, spec, fr, old_vars, entry_vars, pre)
     eng.exec_block(s.orelse, fr)
